@@ -14,6 +14,7 @@ META = {
         "forwarded to all callbacks, so interleaving, FIFO order, nested return values and the "
         "outermost result are O(n) scans. "
         "20% of the machines in an alternative declaration style. "
+        "Fan-out of 700 (thorough 5000) events queued by one callback, plain callbacks sending events on the async engine, suspending callbacks, histories that continue on a clone; every deviation inside a step with a nested send is owned. "
         "distinct_nontrivial = distinct (set of phases from which "
         "nested sends were issued, max queue length bucket, rtc, engine) with >=2 events queued at once."
     ),
